@@ -294,12 +294,13 @@ func (g *pegGrammar) parseNode(x ast.Expr, r *pegRule) (*pegNode, error) {
 // ---- per-action facts (from the effect pass over the action functions) ----------------------
 
 type actionFacts struct {
-	Emits        bool     // writes parser data (code buffer, stacks, flags)
-	Aborts       bool     // records a parse error (p.addErr): the whole parse fails, emitted code never runs
-	FlagWrites   []string // RollConfig fields assigned
-	Ops          []string // opcodes emitted directly (constant first argument of AddOp / WriteCode), in source order
-	Calls        []string // ParserData methods called, in source order
-	ReadsFlag    string   // for predicates of the form `return [!]c.data.Config.X`
+	Emits        bool            // writes parser data (code buffer, stacks, flags)
+	Aborts       bool            // records a parse error (p.addErr): the whole parse fails, emitted code never runs
+	FlagWrites   []string        // RollConfig fields assigned
+	FlagSets     map[string]bool // RollConfig fields assigned a boolean constant by a top-level statement of the action
+	Ops          []string        // opcodes emitted directly (constant first argument of AddOp / WriteCode), in source order
+	Calls        []string        // ParserData methods called, in source order
+	ReadsFlag    string          // for predicates of the form `return [!]c.data.Config.X`
 	FlagNeg      bool
 	ReturnsFalse bool // the function may return the constant false (actions: means "fail")
 }
@@ -338,6 +339,41 @@ func (e *Engine) actionFactsOf(fn string) *actionFacts {
 		}
 	}
 	sort.Strings(af.FlagWrites)
+	af.FlagSets = map[string]bool{}
+	topStmts := fi.Decl.Body.List
+	// pigeon wraps the action code: return (func(c *current) any { ... })(&p.cur)
+	if len(topStmts) == 1 {
+		if rs, ok := topStmts[0].(*ast.ReturnStmt); ok && len(rs.Results) == 1 {
+			if ce, ok := rs.Results[0].(*ast.CallExpr); ok {
+				fun := ce.Fun
+				if pe, ok := fun.(*ast.ParenExpr); ok {
+					fun = pe.X
+				}
+				if fl, ok := fun.(*ast.FuncLit); ok {
+					topStmts = fl.Body.List
+				}
+			}
+		}
+	}
+	for _, stm := range topStmts {
+		as, ok := stm.(*ast.AssignStmt)
+		if !ok || len(as.Lhs) != 1 || len(as.Rhs) != 1 {
+			continue
+		}
+		se, ok := as.Lhs[0].(*ast.SelectorExpr)
+		if !ok {
+			continue
+		}
+		in, ok := se.X.(*ast.SelectorExpr)
+		if !ok || in.Sel.Name != "Config" {
+			continue
+		}
+		if id, ok := as.Rhs[0].(*ast.Ident); ok && (id.Name == "true" || id.Name == "false") {
+			af.FlagSets[se.Sel.Name] = id.Name == "true"
+		} else {
+			delete(af.FlagSets, se.Sel.Name)
+		}
+	}
 	ast.Inspect(fi.Decl.Body, func(n ast.Node) bool {
 		switch u := n.(type) {
 		case *ast.CallExpr:
